@@ -94,7 +94,7 @@ void make_items(const Options& o, std::vector<Item>& items)
                     Item it;
                     it.name = text(p);
                     it.body = [p] { body(p); };
-                    it.bounds = hx::tier_bounds(o, 2, 3);
+                    it.bounds = hx::tier_bounds(o, 3, 4);
                     it.bounds.S = 2;
                     items.push_back(it);
                 }
